@@ -172,7 +172,10 @@ def rule_d(prog, rep):
                     if a.get('k') in ('assign', 'assignop'):
                         acc = a
                         break
-                    if a.get('k') in ('let', 'block', 'if', 'loop', 'match', 'closure'):
+                    # `written += match timeout { Some(t) => ..write(..).., None => ..write(..).. }`: the write is the value of an arm
+                    if a.get('k') in ('let', 'loop', 'closure', 'for'):
+                        break
+                    if a.get('k') == 'block' and a.get('stmts'):
                         break
                 if acc is None or acc.get('k') != 'assignop' or acc.get('op') not in ('Add', 'AddAssign'):
                     problems.append('the number of bytes written is not accumulated with `+=`' +
